@@ -170,7 +170,12 @@ def register(reg):
        ensures=INV + selfpath(AFTER))
     fn("HCT.get_last_point", N=N, props="C01 C15", params={}, returns="list[real]",
        requires=INV, modifies=["self.path", "self.curr_node", "self.tau_h"],
-       ensures=INV + [("result", "defined(self.curr_node) and result is self.curr_node.c_point", "C01")])
+       ensures=INV + [("result", "defined(self.curr_node) and result is self.curr_node.c_point", "C01"),
+                      # a recommendation query re-derives the pull path by the same rule (so it is harmless between rounds)
+                      ("path", "defined(self.path) and fresh(self.path) and PathOK(self.partition, self.path)", "C04 C05 C15"),
+                      ("end", "self.curr_node is self.path[len(self.path) - 1] and self.path[0] is self.partition.root", "C04 C05 C15"),
+                      ("stops", "HCT_Stops(self, self.path)", "C04 C05 C15"),
+                      ("greedy", "Greedy(self.path)", "C04 C05 C15")])
     fn("HCT.__init__", N=N, props="C01 C03 C06",
        params={"nu": "real", "rho": "real", "c": "real", "delta": "real", "domain": "list?[list[real]]", "partition": "cls?:Partition"},
        requires=[("ranges", "nu > 0 and 0 < rho and rho < 1 and 0 < delta and delta < 1", "C01"),
